@@ -41,7 +41,7 @@ def run(tier, seed):
     reach, modules = G.observe(d, cases)
     events.extend(modules)
     # (b) named types at every structural position
-    types, nex, nsim, g, s = typecases.generate_types(tier, seed, d, cfg="Gen_Types_d1" if tier == "quick" else "Gen_Types_d2", simulate=False, min_cases=50)
+    types, nex, nsim, g, s = typecases.generate_types(tier, seed, d, cfg="Gen_Types_d2", simulate=False, min_cases=50)
     types = [t for t in types if "N" in rustgen.canon(t)]
     named = [(i, rustgen.name_leaves(t)[0]) for i, t in enumerate(types)]
     for bi in range(0, len(named), 40):
@@ -79,7 +79,12 @@ def run(tier, seed):
         w = why if isinstance(why, list) else [str(why)]
         unresolved = str(w[1]) if len(w) > 1 else ""
         dups = str(w[3]) if len(w) > 3 else ""
-        idxs = str(w[5:]) if len(w) > 5 else ""
+        idxs = str(w[5:9]) if len(w) > 5 else ""
+        unp = str(w[9]) if len(w) > 9 else ""
+        for (f, n) in sorted(set(re.findall(r'<<"(\w+)", "([^"]*)">>', unp)))[:50]:
+            verdicts.reject("mode=%s file=%s unparsable=%s" % (ev.get("mode"), f, re.sub(r"\d+", "#", n)), "unparsable declaration",
+                            "%s.ts (%s mode): declaration %s cannot be parsed, so what it refers to cannot resolve (project %s)" % (f, ev.get("mode"), n, ev["case"]),
+                            {"case": ev["case"], "file": f, "decl": n})
         for (f, decl, q, n) in sorted(set(re.findall(r'<<"(\w+)", "([\w:<>.?]+)", "(\w*)", "(\w+)">>', unresolved)))[:400]:
             kn = re.sub(r"\d+", "#", n)
             kd = re.sub(r"\d+", "#", decl)
@@ -90,7 +95,7 @@ def run(tier, seed):
         for (f, n) in sorted(set(re.findall(r'<<"(\w+)", "(\w+)">>', dups))):
             verdicts.reject("mode=%s file=%s duplicate=%s" % (ev.get("mode"), f, re.sub(r"\d+", "#", n)), "duplicate export",
                             "%s.ts (%s mode) exports %s twice (project %s)" % (f, ev.get("mode"), n, ev["case"]), {"case": ev["case"]})
-        if not unresolved.strip("{} ") and not dups.strip("{} "):
+        if not unresolved.strip("{} ") and not dups.strip("{} ") and not unp.strip("{} "):
             verdicts.reject("mode=%s index" % ev.get("mode"), idxs[:120], "index.ts does not re-export exactly the written files: %s" % idxs, {"case": ev["case"]})
     rc = verdicts.finish()
     ndecl = sum(len(m["decls"]) for e in events for m in e["mods"].values())
